@@ -677,4 +677,47 @@ example : (drun 1000 [.call (.recvUntil [13, 10] .unset false), .sop (.send [1, 
       .call (.recvUntil [13, 10] .unset false), .sendFlags [7] 1, .sop .flush] exDuplex).2.tx.wire = [1, 2] := by
   decide
 
+/-! ## 8. round 3: the read loop over `recv`; sizes as Python ints -/
+
+/-- the caller's loop `while True: d = recv(size) (Timeout: again); if not d: break; out += d` hands over the
+    whole remaining stream, in order, exactly once, for every chunking, recvsize and timeout placement, and
+    then the stream is exhausted - the `recv` clause of the statement at the strength of the others -/
+theorem recv_drain_whole_stream (cfg : Cfg) (hrs : 0 < cfg.recvsize) (size : Nat) (hs : 0 < size) (st : St) :
+    (drain cfg size (measure st.script + st.view.length + 1) st).1 = st.view ∧
+    (drain cfg size (measure st.script + st.view.length + 1) st).2.view = [] :=
+  drain_ok cfg hrs size hs _ st (Nat.le_refl _)
+
+/-- ... so two networks delivering the same bytes give the same bytes to that loop, whatever the two
+    recvsize settings and the two `size` arguments -/
+theorem recv_drain_chunk_independent (cfg₁ cfg₂ : Cfg) (h₁ : 0 < cfg₁.recvsize) (h₂ : 0 < cfg₂.recvsize)
+    (n₁ n₂ : Nat) (hn₁ : 0 < n₁) (hn₂ : 0 < n₂) (s₁ s₂ : List Ev) (hs : pending s₁ = pending s₂) :
+    (drain cfg₁ n₁ (measure s₁ + (start s₁).view.length + 1) (start s₁)).1
+      = (drain cfg₂ n₂ (measure s₂ + (start s₂).view.length + 1) (start s₂)).1 := by
+  rw [(recv_drain_whole_stream cfg₁ h₁ n₁ hn₁ (start s₁)).1, (recv_drain_whole_stream cfg₂ h₂ n₂ hn₂ (start s₂)).1]
+  simp [St.view, hs]
+
+/-- `recv_size` with the size as a Python `int` (integer comparison `total_bytes >= size`, the slices
+    `nxt[:-extra]` / `nxt[-extra:]` with `extra` possibly larger than `len(nxt)`): on a natural number it is the
+    `recvSize` of the theorems above, and a negative size behaves exactly like `recv_size(0)` -/
+theorem recv_size_int_faithful (cfg : Cfg) (st : St) :
+    (∀ n : Nat, recvSizeI cfg (n : Int) st = recvSize cfg n st) ∧
+    (∀ s : Int, s ≤ 0 → recvSizeI cfg s st = recvSize cfg 0 st) :=
+  ⟨fun n => recvSizeI_ofNat cfg n st, fun s hs => recvSizeI_neg cfg s hs st⟩
+
+/-- `read_ns` with the size prefix kept as the (possibly negative) `int` that `int()` returns - the comparison
+    `size > maxsize` on integers, `recv_size(size)` with that integer - is the `read_ns` of the theorems above,
+    which clamps a negative size to 0 (`parseSize`): the clamping loses nothing.  The driver runs this version. -/
+theorem read_ns_int_size_faithful (cfg : Cfg) (ns : NsSock) (arg : Option Nat) (k : Nat) (st : St) :
+    NsSock.readNsManyI cfg ns arg k st = NsSock.readNsMany cfg ns arg k st :=
+  NsSock.readNsManyI_eq cfg ns arg k st
+
+/-! non-vacuity for section 8 -/
+example : (drain ⟨2, 100⟩ 3 20 (start exScript)).1 = [97, 98, 13, 10, 99, 100, 13, 10] := by decide
+example : (recvSizeI ⟨4, 4⟩ (-5) (start [.chunk [1, 2, 3]])).1 = .ok [] ∧
+    (recvSizeI ⟨4, 4⟩ (-5) (start [.chunk [1, 2, 3]])).2.rbuf = [1, 2, 3] := by decide
+example : (recvSizeI ⟨4, 4⟩ (-5) (start [])).1 = .closed := by decide
+example : pyDropLast 5 [1, 2, 3] = [] ∧ pyLast 5 [1, 2, 3] = [1, 2, 3] ∧ pyDropLast 1 [1, 2, 3] = [1, 2] := by decide
+example : ((NsSock.init 10).readNsManyI ⟨4, 4⟩ none 2 (start [.chunk [45, 49, 58, 44, 49, 58, 7, 44]])).1
+    = [.ok [], .ok [7]] := by decide
+
 end C12
